@@ -17,11 +17,11 @@ from vlib import Infra, log, read_ndjson, write_ndjson
 
 PROFILE = {
     "C12": dict(quick=["F1q", "F3", "F4", "F5", "F6q", "F7", "F8"], thorough=["F1", "F2", "F3", "F4", "F5", "F6", "F7", "F8"],
-                rand=(240, 8000), mode="C12"),
+                rand=(160, 8000), mode="C12"),
     "C14": dict(quick=["G1c", "G2b", "G2X", "G2S", "G3", "G4", "G4X"],
                 thorough=["G1c", "G1l", "G1h", "G2a", "G2b", "G2c", "G2d", "G2e", "G2X", "G2S", "G3", "G4", "G4X"],
-                rand=(240, 8000), mode="C14"),
-    "C20": dict(quick=["H1q", "H2"], thorough=["H1", "H2"], rand=(240, 6000), mode="C20"),
+                rand=(160, 8000), mode="C14"),
+    "C20": dict(quick=["H1q", "H2"], thorough=["H1", "H2"], rand=(160, 6000), mode="C20"),
 }
 # which comparisons decide which property
 CMPS = {
@@ -187,12 +187,19 @@ def run(ctx):
     unjudged, why = 0, {}
     classes = set()
     samples = []
+    judged_keys, rand_keys, seen_fams = set(), {}, set()
     for o in outcomes:
         if o["verdict"] == "unjudged":
             unjudged += 1
         classes.add((o["fam"], o["verdict"], tuple(sorted(o["errs"])), o["altkind"]))
-        if len(samples) < 3 and o["verdict"] == "ok" and o["fam"] != "R" and o["id"] % 97 == 5:
-            samples.append(dict(id=o["id"], fam=o["fam"], verdict=o["verdict"], altkind=o["altkind"]))
+        if o["verdict"] in ("ok", "err"):
+            judged_keys.add(o["key"])
+        elif o["verdict"] == "record":
+            rand_keys[o["id"]] = o["key"]
+        if len(samples) < 4 and o.get("texts") and not o["mism"] and o["id"] % 1000000 == 1 and o["fam"] not in seen_fams:
+            seen_fams.add(o["fam"])
+            samples.append(dict(family=o["fam"], spec_verdict=o["verdict"], spec_errors=o["errs"], compiled=o["codeok"],
+                                yang=[t[:1800] for t in o["texts"]], rewritten=[t[:1800] for t in (o.get("alttexts") or [])]))
         for m in o["mism"]:
             if m["cmp"] not in cmps:
                 continue
@@ -212,10 +219,14 @@ def run(ctx):
         ctx.disagree(sig, f"trace rejected: {f['site']} {f['attr']} of {f['kind'] or 'module set'} at {f['path'] or '/'} {f['filter']}",
                      dict(kind="trace", failure=f, fam=o.get("fam"),
                           how=f"bin/check {prop} --tier {ctx.tier} --seed {ctx.seed} (VERIF_KEEP=1 keeps trace.ndjson; event id {f['id']})"))
+    distinct = len(judged_keys | set(rand_keys.values())) - min(unj_trace, len(set(rand_keys.values())))
     cov = dict(
-        evaluations=nvec, distinct_nontrivial=len(classes),
+        evaluations=nvec, distinct_nontrivial=max(distinct, 0), behaviour_classes=len(classes),
         rule="vectors = every case of the listed families (YangSchemaSets.tla) plus TLC-sampled larger module sets (family R); "
-             "distinct = (family, spec verdict, spec error classes, rewritten form) classes",
+             "distinct = distinct inputs by hash of (rendered YANG of the module set, enabled features, number of filters); non-trivial = judged, "
+             "i.e. the spec gives verdict ok or err (unjudged vectors and unjudged sampled sets are not counted); every generated module set contains "
+             "at least one uses, augment, deviation, if-feature, config/status placement or is compiled under 21 filters; "
+             "behaviour_classes = (family, spec verdict, spec error classes, rewritten form) classes",
         samples=samples, families=fams, family_sizes=sizes, sampled_module_sets=nrand, unjudged_vectors=unjudged,
         unjudged_trace_events=unj_trace, trace_events=events, trace_checks=checks,
         selftest=dict(perturbed_vector_reported=st_vec, perturbed_event_rejected=st_trace),
